@@ -68,10 +68,10 @@ pub fn environment(b: &Built) -> Environment {
     }
 }
 
-/// The real call, without panic capture: decode the transaction for its era,
-/// decode the UTxO entries, build the environment, `validate_tx`.
-/// Outer `Err` = not decodable.
-pub fn validate(b: &Built) -> Result<Result<(), ValidationError>, String> {
+/// Decode the artefact with pallas-traverse (transaction for its era, UTxO
+/// entries for theirs), build the environment and hand all three to `f`.
+/// `Err` = not decodable. No panic capture here.
+pub fn with_decoded<R>(b: &Built, f: impl FnOnce(&MultiEraTx, &UTxOs, &Environment) -> R) -> Result<R, String> {
     let tx = MultiEraTx::decode_for_era(b.era.pallas(), &b.tx).map_err(|e| format!("tx: {e}"))?;
     let mut utxos: UTxOs = UTxOs::new();
     for u in &b.utxo {
@@ -84,8 +84,16 @@ pub fn validate(b: &Built) -> Result<Result<(), ValidationError>, String> {
         utxos.insert(input, out);
     }
     let env = environment(b);
-    let mut cs = CertState::default();
-    Ok(validate_tx(&tx, 0, &env, &utxos, &mut cs))
+    Ok(f(&tx, &utxos, &env))
+}
+
+/// The real call, without panic capture: `validate_tx` on the decoded artefact
+/// with a fresh certificate state. Outer `Err` = not decodable.
+pub fn validate(b: &Built) -> Result<Result<(), ValidationError>, String> {
+    with_decoded(b, |tx, utxos, env| {
+        let mut cs = CertState::default();
+        validate_tx(tx, 0, env, utxos, &mut cs)
+    })
 }
 
 /// `validate` under `mc_core::catch`, separating decoder panics from validator panics.
